@@ -651,7 +651,11 @@ func (c *Collection) writeWithXattrs(
 				}
 			}
 		}
-		e.xattrs, _ = json.Marshal(xattrs)
+		if len(xattrs) > 0 {
+			e.xattrs, _ = json.Marshal(xattrs)
+		} else {
+			e.xattrs = nil // no xattrs left: store NULL, not an empty object, like the other write paths
+		}
 		if e.value == nil {
 			// a document without a body is a tombstone, whichever path wrote it
 			e.isDeletion = true
